@@ -223,12 +223,12 @@ func c14BlockMenu(full bool) []c14Block {
 	hs := ref.C14SmallHeaders()
 	headers := []*ref.C14Header{nil, &hs[0], &hs[2], &hs[3]}
 	bp := func(b ...[]byte) *[][]byte { x := append([][]byte{}, b...); return &x }
-	bodies := []*[][]byte{nil, bp(), bp(ref.C14Tame(3, 1)), bp(nil, ref.C14Tame(64, 9))}
+	bodies := []*[][]byte{nil, bp(), bp(ref.C14Tame(4, 1)), bp(nil, ref.C14Tame(64, 9))}
 	op := func(b []byte) *[]byte { return &b }
 	opts := []*[]byte{nil, op([]byte{}), op([]byte{0x0a, 0, 1})}
 	if !full {
 		headers = []*ref.C14Header{nil, &hs[2]}
-		bodies = []*[][]byte{nil, bp(ref.C14Tame(3, 1))}
+		bodies = []*[][]byte{nil, bp(ref.C14Tame(4, 1))}
 	}
 	var out []c14Block
 	for hi, h := range headers {
